@@ -630,11 +630,10 @@ Proof.
 Qed.
 
 Lemma legal_prefix : forall pre n,
-  legal_basic_ident pre = false \/ True ->   (* pre itself ends in '_' and need not be legal *)
   opt_is is_letter (first_char pre) = true -> sall is_idchar pre = true -> no_dus pre = true ->
   legal_basic_ident n = true -> legal_basic_ident (pre ++ n) = true.
 Proof.
-  intros pre n _ H1 H2 H3 Hn. apply legal_parts in Hn as (N1 & N2 & N3 & N4).
+  intros pre n H1 H2 H3 Hn. apply legal_parts in Hn as (N1 & N2 & N3 & N4).
   apply legal_app; auto.
   - eapply first_nonempty; eauto.
   - destruct (first_char n) as [c|]; simpl in *; [|discriminate].
@@ -702,11 +701,9 @@ Proof. destruct s; reflexivity. Qed.
 
 Lemma last_char_smap : forall f s, last_char (smap f s) = option_map f (last_char s).
 Proof.
-  induction s as [|c s IH]; auto. destruct s as [|d s']; auto.
-  change (smap f (String c (String d s'))) with (String (f c) (smap f (String d s'))).
-  change (smap f (String d s')) with (String (f d) (smap f s')) at 1.
-  change (last_char (String (f c) (String (f d) (smap f s')))) with (last_char (String (f d) (smap f s'))).
-  exact IH.
+  induction s as [|c s IH]; auto.
+  change (smap f (String c s)) with (String (f c) (smap f s)).
+  rewrite !last_char_cons, IH. destruct (last_char s); reflexivity.
 Qed.
 
 Lemma legal_upper : forall n, legal_basic_ident n = true -> legal_basic_ident (upper n) = true.
